@@ -207,6 +207,8 @@ func evalConf(cf *sdl.Conf, cfg map[string]string) confExpect {
 		zero = "[]"
 	case "intp":
 		zero = "<nil>"
+	case "bool":
+		zero = "false"
 	case "dur":
 		zero = "0s"
 	case "strmap":
@@ -268,6 +270,36 @@ func evalConf(cf *sdl.Conf, cfg map[string]string) confExpect {
 		x, _ := strconv.Atoi(a)
 		y, _ := strconv.Atoi(b)
 		val = strconv.Itoa(x + y)
+	case "cmp", "tern", "concat", "affine", "and", "mod":
+		var xs []string
+		for _, k := range cf.Keys {
+			x, ok := cfg[k]
+			if !ok {
+				e.Open = true
+				return e
+			}
+			xs = append(xs, x)
+		}
+		num := func(i int) int { n, _ := strconv.Atoi(xs[i]); return n }
+		switch cf.Menu {
+		case "cmp":
+			val = strconv.FormatBool(num(0) > num(1))
+		case "tern":
+			if num(0) > 3 {
+				val = xs[1]
+			} else {
+				val = xs[2]
+			}
+		case "concat":
+			val = xs[0] + xs[1]
+		case "affine":
+			val = strconv.Itoa(num(0)*num(1) + num(2))
+		case "and":
+			n, _ := strconv.Atoi(cf.Default)
+			val = strconv.FormatBool(num(0) == n && xs[1] == "va")
+		case "mod":
+			val = strconv.Itoa(num(0) % 3)
+		}
 	case "sumDef2":
 		// each placeholder falls back to its OWN default, and only when its own key is absent
 		a, okA := cfg[cf.Keys[0]]
@@ -365,8 +397,17 @@ func evalConf(cf *sdl.Conf, cfg map[string]string) confExpect {
 					e.Violate = e.Violate || x > n
 				case "required":
 					e.Violate = e.Violate || x == 0
+				case "gt":
+					e.Violate = e.Violate || !(x > n)
+				case "lt":
+					e.Violate = e.Violate || !(x < n)
+				case "eq":
+					e.Violate = e.Violate || x != n
+				case "ne":
+					e.Violate = e.Violate || x == n
 				}
 			} else {
+				n, _ := strconv.Atoi(arg)
 				switch name {
 				case "eq":
 					e.Violate = e.Violate || val != arg
@@ -374,6 +415,12 @@ func evalConf(cf *sdl.Conf, cfg map[string]string) confExpect {
 					e.Violate = e.Violate || val == arg
 				case "required":
 					e.Violate = e.Violate || val == ""
+				case "len":
+					e.Violate = e.Violate || len(val) != n
+				case "min":
+					e.Violate = e.Violate || len(val) < n
+				case "max":
+					e.Violate = e.Violate || len(val) > n
 				}
 			}
 		}
@@ -496,7 +543,7 @@ func (w *World) CheckConfigStages(o *Obs) []Violation {
 			cfg2[p.PostSetKey] = strconv.Itoa(p.PostSetVal)
 		}
 		exprMenu := func(m string) bool {
-			return m == "sum" || m == "mul" || m == "nested" || m == "sumDef" || m == "sumDef2" || m == "indirect"
+			return m == "sum" || m == "mul" || m == "nested" || m == "sumDef" || m == "sumDef2" || m == "cmp" || m == "tern" || m == "concat" || m == "affine" || m == "and" || m == "mod" || m == "indirect"
 		}
 		judge := func(inst string, t *sdl.Type, round int, cfgR map[string]string, l LookupObs, got map[string]string) (created, judged bool) {
 			bad, why := false, ""
@@ -572,7 +619,7 @@ func (w *World) CheckConfigStages(o *Obs) []Violation {
 			}
 			if got != x.e.Value {
 				oracle := "bound-value-differs"
-				if x.cf.Menu == "sum" || x.cf.Menu == "mul" || x.cf.Menu == "nested" || x.cf.Menu == "sumDef" || x.cf.Menu == "sumDef2" || x.cf.Menu == "indirect" {
+				if x.cf.Menu == "sum" || x.cf.Menu == "mul" || x.cf.Menu == "nested" || x.cf.Menu == "sumDef" || x.cf.Menu == "sumDef2" || x.cf.Menu == "cmp" || x.cf.Menu == "tern" || x.cf.Menu == "concat" || x.cf.Menu == "affine" || x.cf.Menu == "and" || x.cf.Menu == "mod" || x.cf.Menu == "indirect" {
 					oracle = "expression-result-differs"
 				}
 				vs = append(vs, v("C18", oracle, x.inst+"."+x.cf.Field, fmt.Sprintf("%s.%s (%s %v default=%q) holds %q, the menu evaluator gives %q over configuration %v", x.inst, x.cf.Field, x.cf.Menu, x.cf.Keys, x.cf.Default, got, x.e.Value, cfg)))
